@@ -58,6 +58,15 @@ def run(tier, rep, work):
         lines = C.read_trace(trace)
         starts = [s for s, _ in C.split_histories(lines)]
         counts = dict(reach0=0, nonempty=0, smallexact=0)
+        # high-water mark of resident vertices since the index was last empty, per event (the exactness clause speaks of indexes that never grew beyond 2M)
+        hw, cur = [], 0
+        for x in lines:
+            e = json.loads(x)
+            if e.get("op") == "reset":
+                cur = 0
+            elif "g" in e:
+                cur = 0 if len(e["g"]) == 0 else max(cur, len(e["g"]))
+            hw.append(cur)
         for rp in reports:
             parts = rp.split()
             kind, idx = parts[1], int(parts[2]) - 1
@@ -69,6 +78,8 @@ def run(tier, rep, work):
             if explained and kind == "reach0" and "C12-orphaning" in kf:
                 rep.known_finding("C12-orphaning", "live vertex without a bottom-layer path from the entry point, graph explained edge for edge by HNSW.tla "
                                   "(M-nearest pruning / Flush removing the only in-links); first seen: M=%d event %d" % (m, idx))
+            elif explained and kind == "smallexact" and hw[idx] > 2 * m and "C12-orphaning" in kf:
+                rep.known_finding("C12-orphaning", "small index inexact after it had grown beyond 2M and was flushed back: a live vertex lost its in-links (explained graph, M=%d event %d)" % (m, idx))
             elif explained and kind == "nonempty" and not small and "C12-orphaning" in kf:
                 rep.known_finding("C12-orphaning", "search empty although a live vertex exists: the only live vertices are orphans of an explained graph (M=%d event %d)" % (m, idx))
             else:
